@@ -4,6 +4,8 @@
 package main
 
 import (
+	"sync/atomic"
+	"math"
 	"context"
 	"fmt"
 	"sort"
@@ -28,6 +30,7 @@ type policy struct {
 	ticks    bool
 	tickCh   chan time.Time
 	decision chan bool
+	asked    chan uint32 // the buffered payload size the library asked the policy about
 }
 
 func (p *policy) Ticker() (<-chan time.Time, func()) {
@@ -38,6 +41,10 @@ func (p *policy) Ticker() (<-chan time.Time, func()) {
 }
 func (p *policy) IsFlush(size uint32) bool {
 	d := p.real.IsFlush(size)
+	select {
+	case p.asked <- size:
+	default:
+	}
 	p.decision <- d
 	return d
 }
@@ -88,6 +95,8 @@ type impl struct {
 	lostInFlight int
 	sortAck      bool
 	dupTransmissions int
+	bufBytes     int    // oracle: payload bytes written since the last chunk was cut
+	sizeViolation string
 }
 
 func waitUntil(f func() bool) bool {
@@ -169,7 +178,7 @@ func (i *impl) open(pol, qos, pre string, defaultStore bool) string {
 	}
 	i.conn = conn
 	rp, ticks := realPolicy(pol)
-	i.pol = &policy{real: rp, ticks: ticks, tickCh: make(chan time.Time), decision: make(chan bool, 16)}
+	i.pol = &policy{real: rp, ticks: ticks, tickCh: make(chan time.Time), decision: make(chan bool, 16), asked: make(chan uint32, 64)}
 	q := map[string]message.QoS{"r": message.QoSReliable, "u": message.QoSUnreliable, "p": message.QoSPartial}[qos]
 	var ids []*message.DataID
 	if pre != "_" {
@@ -345,8 +354,15 @@ func (i *impl) exec(op string) string {
 		if w[2] != "-" {
 			pts = w[2]
 		}
-		before := i.up.State().LastIssuedSequenceNumber
+		st0 := i.up.State()
+		before := st0.LastIssuedSequenceNumber
 		appSlice := dp.ParsePoints(pts)
+		if len(st0.DataPointsBuffer) == 0 {
+			i.bufBytes = 0 // whatever cut the last chunk (size, tick, Flush, outage) emptied the buffer
+		}
+		for _, p := range appSlice {
+			i.bufBytes += len(p.Payload)
+		}
 		if err := i.up.WriteDataPoints(ctx, dp.ID(tok), appSlice...); err != nil {
 			return "err " + err.Error()
 		}
@@ -361,8 +377,17 @@ func (i *impl) exec(op string) string {
 		}
 		select {
 		case d := <-i.pol.decision:
+			// the size the policy is asked about is the payload buffered since the last cut - nothing that was cut already
+			select {
+			case asked := <-i.pol.asked:
+				if int(asked) != i.bufBytes && i.sizeViolation == "" {
+					i.sizeViolation = fmt.Sprintf("after `%s` the flush policy was asked whether %d buffered payload bytes exceed its threshold; %d bytes have been written since the last chunk was cut", op, asked, i.bufBytes)
+				}
+			default:
+			}
 			if d {
 				waitUntil(func() bool { return i.up.State().LastIssuedSequenceNumber > before })
+				i.bufBytes = 0
 			}
 		case <-time.After(watchdog):
 			return "hang"
@@ -688,12 +713,71 @@ func (i *impl) concurrentX(h *lp.H, k, n int, pol string, seed int64, raceClose 
 	var wg sync.WaitGroup
 	var amu sync.Mutex
 	failed := ""
+	// State() pollers: a snapshot taken at any moment - in particular while the flush loop is cutting a chunk - never counts a
+	// point twice: points reported sent plus points reported buffered never exceed the points whose write has been started
+	// (read after the snapshot), and the sent total and the last issued sequence number never go back.
+	var started int64
+	stopPoll := make(chan struct{})
+	var pollWg sync.WaitGroup
+	var snapshots int64
+	snapViolation := ""
+	if !raceClose {
+		for p := 0; p < 3; p++ {
+			pollWg.Add(1)
+			go func() {
+				defer pollWg.Done()
+				var lastTot uint64
+				var lastSeq uint32
+				for {
+					select {
+					case <-stopPoll:
+						return
+					default:
+					}
+					st := up.State()
+					lim := atomic.LoadInt64(&started)
+					buffered := 0
+					for _, g := range st.DataPointsBuffer {
+						buffered += len(g.DataPoints)
+					}
+					atomic.AddInt64(&snapshots, 1)
+					what := ""
+					switch {
+					case int64(st.TotalDataPoints)+int64(buffered) > lim:
+						what = fmt.Sprintf("a state snapshot reports %d points sent plus %d buffered while only %d points had been handed to the stream: data is counted twice", st.TotalDataPoints, buffered, lim)
+					case st.TotalDataPoints < lastTot:
+						what = fmt.Sprintf("the sent total of the state snapshot went back from %d to %d", lastTot, st.TotalDataPoints)
+					case st.LastIssuedSequenceNumber < lastSeq:
+						what = fmt.Sprintf("the last issued sequence number of the state snapshot went back from %d to %d", lastSeq, st.LastIssuedSequenceNumber)
+					}
+					lastTot, lastSeq = st.TotalDataPoints, st.LastIssuedSequenceNumber
+					if what != "" {
+						amu.Lock()
+						if snapViolation == "" {
+							snapViolation = what
+						}
+						amu.Unlock()
+						return
+					}
+				}
+			}()
+		}
+	}
+	defer func() {
+		select {
+		case <-stopPoll:
+		default:
+			close(stopPoll)
+		}
+		pollWg.Wait()
+	}()
 	for g := 0; g < k; g++ {
 		wg.Add(1)
 		go func(g int) {
 			defer wg.Done()
 			for j := 0; j < n; j++ {
 				pts := fmt.Sprintf("%d/%s", j, lp.Hex([]byte{byte(g), byte(j), byte(j >> 8)}[:1+(j%3)]))
+				atomic.AddInt64(&started, 1)
 				if err := up.WriteDataPoints(ctx, dp.ID(g+1), dp.ParsePoints(pts)...); err != nil {
 					if raceClose {
 						return // refused: the stream is closing
@@ -724,6 +808,12 @@ func (i *impl) concurrentX(h *lp.H, k, n int, pol string, seed int64, raceClose 
 		return "ok"
 	}
 	wg.Wait()
+	close(stopPoll)
+	pollWg.Wait()
+	h.Count("conc:state-snapshots-" + strconv.Itoa(int(math.Log10(float64(atomic.LoadInt64(&snapshots)+1)))) + "digits")
+	if snapViolation != "" {
+		h.Violate(snapViolation)
+	}
 	if failed != "" {
 		h.Violate("concurrent writers on a live connection: " + failed)
 		return "ok"
@@ -901,6 +991,10 @@ func main() {
 			h.Extra["resume-incomplete"] = im.diag
 		}
 		h.Op(op, out)
+		if im.sizeViolation != "" {
+			h.Violate(im.sizeViolation)
+			im.sizeViolation = ""
+		}
 		if out == "hang" || strings.HasPrefix(out, "err") {
 			h.Violate("upstream call failed or blocked on a connection that stays up: " + op + " -> " + out)
 		}
